@@ -798,7 +798,7 @@ def run(ctx):
                 (100, (20, 120), "wide")]
     else:
         plan = [(1500, (10, 60), "mixed"), (1000, (60, 200), "mixed"), (400, (200, 400), "mixed"), (1000, (30, 300), "far"),
-                (1500, (20, 300), "wide")]
+                (1000, (20, 300), "wide")]
     for count, (lo, hi), style in plan:
         for start in range(0, count, 50):
             cases = [gen_case(rng, rng.randrange(lo, hi + 1), style) for _ in range(min(50, count - start))]
